@@ -332,7 +332,13 @@ where
         }
         ["raw"] => show_dec_any::<C, Bk>(d),
         ["clone"] => {
-            *d = d.clone();
+            // both forms of `Clone`: `clone()`, then `clone_from` over a decoder in another state
+            let copy = d.clone();
+            d.clone_from(&copy);
+            let mut other = d.clone();
+            let _ = other.seek((0, other.pos().1));
+            other.clone_from(&copy);
+            *d = other;
             "ok".into()
         }
         _ => return None,
@@ -527,7 +533,12 @@ fn run_hist<C: RangeCombo>(segs: &[Vec<&str>]) -> String {
                     }
                     ["raw"] => show_enc::<C>(coder),
                     ["clone"] => {
-                        *coder = coder.clone();
+                        // both forms of `Clone`: `clone()`, then `clone_from` into an encoder with other contents
+                        let copy = coder.clone();
+                        let mut other = copy.clone();
+                        other.clear();
+                        other.clone_from(&copy);
+                        *coder = other;
                         "ok".into()
                     }
                     ["clear"] => {
